@@ -26,12 +26,13 @@ ASSUMPTIONS = [
     "grouping after filter_by_ids is compared modulo empty suites (removed tests are replaced by empty suites)",
 ]
 
-IDS = ["t%d" % i for i in range(8)] + ["mod.Class.test_x", "é.test"]
+IDS = ["t%d" % i for i in range(8)] + ["mod.Class.test_x", "é.test", ""]
 KINDS = ["plain", "plain", "sub", "sorting", "filtering"]
 
 
 def tree(depth):
-    leaf = st.builds(lambda i: {"k": "leaf", "id": i}, st.sampled_from(IDS))
+    leaf = st.builds(lambda i, lk: {"k": "leaf", "id": i, "lk": lk}, st.sampled_from(IDS),
+                     st.sampled_from(["placeholder", "placeholder", "clone", "decorated"]))
     if depth == 0:
         return leaf
     return st.one_of(leaf, st.builds(lambda k, c: {"k": k, "c": c}, st.sampled_from(KINDS),
@@ -51,7 +52,7 @@ def s_case(draw):
 
         def relabel(n):
             if n["k"] == "leaf":
-                return {"k": "leaf", "id": "u%02d" % next(counter)}
+                return {"k": "leaf", "id": "u%02d" % next(counter), "lk": n.get("lk", "placeholder")}
             return {"k": n["k"], "c": [relabel(c) for c in n["c"]]}
         # shuffle labels so that sorting is not the identity
         t = relabel(t)
@@ -60,7 +61,7 @@ def s_case(draw):
 
         def apply(nod):
             if nod["k"] == "leaf":
-                return {"k": "leaf", "id": "u%02d" % perm[int(nod["id"][1:])]}
+                return {"k": "leaf", "id": "u%02d" % perm[int(nod["id"][1:])], "lk": nod.get("lk", "placeholder")}
             return {"k": nod["k"], "c": [apply(c) for c in nod["c"]]}
         t = apply(t)
     ids = draw(st.sets(st.sampled_from(IDS + ["u%02d" % i for i in range(12)] + ["absent"]), max_size=8))
@@ -89,12 +90,30 @@ def classes():
     class Filtering(unittest.TestSuite):
         def filter_by_ids(self, test_ids):
             return Filtering([filter_by_ids(t, test_ids) for t in self])
-    return {"leaf": Leaf, "plain": unittest.TestSuite, "sub": Sub_, "sorting": Sorting, "filtering": Filtering}
+    class Stdlib(unittest.TestCase):
+        def test_m(self):
+            RUNLOG.append(self.id())
+    return {"leaf": Leaf, "plain": unittest.TestSuite, "sub": Sub_, "sorting": Sorting, "filtering": Filtering, "stdlib": Stdlib}
+
+
+def make_leaf(node, cls):
+    lk = node.get("lk", "placeholder")
+    if lk == "clone":
+        # scenario-style clones of ONE stdlib test method: equal by unittest's __eq__, different ids
+        import testtools
+        return testtools.clone_test_with_new_id(cls["stdlib"]("test_m"), node["id"])
+    if lk == "decorated":
+        import testtools
+        return testtools.DecorateTestCaseResult(cls["leaf"](node["id"]), lambda result: result)
+    return cls["leaf"](node["id"])
+
+
+_STDLIB = []
 
 
 def build(node, cls, registry):
     if node["k"] == "leaf":
-        obj = cls["leaf"](node["id"])
+        obj = make_leaf(node, cls)
     else:
         obj = cls[node["k"]]([build(c, cls, registry) for c in node["c"]])
     registry[id(obj)] = node
@@ -263,7 +282,7 @@ def run_cli(spec):
         keep = list(spec["ids"])
         with open(listfile, "wb") as f:
             f.write("".join(i + "\n" for i in keep).encode("utf8"))
-            if spec.get("blank_line"):
+            if spec.get("blank_line") and "" not in want_leaves:     # a blank line would name the test whose id is ""
                 f.write(b"\n")
         want = [i for i in want_leaves if i in set(keep)]
         out, code, ran = call(["--load-list", listfile])
